@@ -137,8 +137,9 @@ def gen_source(rng, depth=0, allow_include=True, nlines=None, files=None, macros
         elif k < 0.14:
             out.append('#undef %s%s' % (rng.choice(IDENTS), eol))
         elif k < 0.24:
-            kind = rng.choice(['#ifdef %s', '#ifndef %s', '#if %s', '#if %s', '#if !%s', '#if %s == %s'])
-            ops = [rng.choice(['0', '1', '2'] + IDENTS) for _ in range(2)]
+            kind = rng.choice(['#ifdef %s', '#ifndef %s', '#if %s', '#if %s', '#if !%s', '#if %s == %s', '#if %s == %s == %s', '#if !%s == %s',
+                               '#if %s == !%s == %s', '#if %s == %s == %s == %s', '#if !!%s == %s == %s'])
+            ops = [rng.choice(['0', '1', '2', '3'] + IDENTS) for _ in range(4)]
             out.append((kind % tuple(ops[:kind.count('%s')])) + eol)
             open_ifs += 1
         elif k < 0.30 and open_ifs:
